@@ -36,6 +36,12 @@ type c11Case struct {
 	Name      string `json:"name,omitempty"` // simplify: hex of the function name
 	// cli: sample-filter options given together with -prune_from / drop_frames
 	Opts map[string]string `json:"opts,omitempty"`
+	// agg: frame dropping observed through aggregating outputs
+	Out     string   `json:"out,omitempty"`   // traces | proto
+	Flags   []string `json:"flags,omitempty"` // granularity, -noinlines
+	Rel     bool     `json:"relative_percentages,omitempty"`
+	TagRoot string   `json:"tagroot,omitempty"`
+	TagLeaf string   `json:"tagleaf,omitempty"`
 }
 
 // simplified asks the model for simplifyFunc(name), cached.
@@ -556,6 +562,174 @@ func c11CliEval(c *Ctx, e *c11Env, cs c11Case, res cliOut) {
 	}
 }
 
+// ---------- frame dropping seen through aggregating outputs ----------
+//
+// drop_frames/keep_frames are applied when the profile is fetched, -tagroot/-tagleaf then add the
+// label frames, -prune_from runs with the sample filters — all on the ORIGINAL frame names; only
+// then does the chosen granularity / -noinlines erase names and inlined lines. Expected stacks:
+// aggregate ∘ prune_from ∘ tags ∘ drop/keep (model), observed: -traces (value and number of frames
+// per sample) or -proto -noinlines (stacks by name).
+
+func (cs c11Case) asC06() c06Case {
+	fl := append([]string(nil), cs.Flags...)
+	if cs.PruneFrom != "" {
+		fl = append(fl, "-prune_from="+cs.PruneFrom)
+	}
+	return c06Case{Out: cs.Out, Flags: fl, Rel: cs.Rel, TagRoot: cs.TagRoot, TagLeaf: cs.TagLeaf}
+}
+
+type c11AggOut struct {
+	text string
+	prof cliOut
+	errs string
+}
+
+func c11RunAgg(bin, dir string, i int, p *profile.Profile, cs c11Case) c11AggOut {
+	k := cs.asC06()
+	if cs.Out == "proto" {
+		extra := append(append([]string(nil), k.Flags...), tagFlags(k)...)
+		if cs.Rel {
+			extra = append(extra, "-relative_percentages")
+		}
+		r := runPprofProto(bin, dir, 200000+i, p, nil, extra...)
+		return c11AggOut{prof: r, errs: r.err}
+	}
+	t, e := runPprofAgg(bin, dir, 200000+i, p, k)
+	return c11AggOut{text: t, errs: e}
+}
+
+func c11AggEval(c *Ctx, e *c11Env, cs c11Case, res c11AggOut) {
+	p, err := ParseCanon(cs.Profile)
+	if err != nil {
+		c.Res.HarnessError = "ParseCanon: " + err.Error()
+		return
+	}
+	if strings.HasPrefix(res.errs, "harness") {
+		c.Res.HarnessError = res.errs + res.prof.msg
+		return
+	}
+	cur := cs.Profile
+	if p.DropFrames != "" {
+		drop, keep, ok := c11Compile(c11Case{Drop: p.DropFrames, Keep: p.KeepFrames}, true)
+		if !ok {
+			return
+		}
+		var w tw
+		n := 1
+		if p.KeepFrames != "" {
+			n = 2
+		}
+		w.n(n)
+		w.str("^(" + p.DropFrames + ")$")
+		w.tok(e.optTbl(drop, p))
+		if p.KeepFrames != "" {
+			w.str("^(" + p.KeepFrames + ")$")
+			w.tok(e.optTbl(keep, p))
+		}
+		rep := c.Drv.Ask("ru.model " + w.String() + " " + cur)
+		if !strings.HasPrefix(rep, "ok ") {
+			c.Disagree("C11/agg-model/"+c06firstWord(rep), c06trunc(rep), "correspondence Prune.removeUninteresting ~ RemoveUninteresting", cs)
+			return
+		}
+		cur = rep[3:]
+	}
+	q, err := ParseCanon(cur)
+	if err != nil {
+		c.Disagree("C11/agg-model/unreadable", c06trunc(cur), "driver", cs)
+		return
+	}
+	if cs.TagRoot != "" || cs.TagLeaf != "" {
+		q = extendWithTags(q, cs.TagRoot, cs.TagLeaf)
+		cur = Canon(q)
+	}
+	if cs.PruneFrom != "" {
+		re, err := regexp.Compile(cs.PruneFrom)
+		if err != nil {
+			return
+		}
+		cur = c.Drv.Ask("prunefrom.model " + e.tbl(re, q) + " " + cur)
+		if q, err = ParseCanon(cur); err != nil {
+			c.Disagree("C11/agg-model/unreadable", c06trunc(cur), "driver", cs)
+			return
+		}
+	}
+	c.Res.ModelCompared++
+	desc := fmt.Sprintf("drop_frames=%q keep_frames=%q prune_from=%q tagroot=%q tagleaf=%q %v relative_percentages=%v", p.DropFrames, p.KeepFrames, cs.PruneFrom, cs.TagRoot, cs.TagLeaf, cs.Flags, cs.Rel)
+	if res.errs != "" {
+		c.Violation("C11/agg/"+cs.Out+"/"+c06firstWord(res.errs), "pprof -"+cs.Out+" fails on a valid profile ("+desc+"): "+res.errs+" "+res.prof.msg, cs)
+		return
+	}
+	noinl := hasFlag(cs.Flags, "-noinlines")
+	col := len(q.SampleType) - 1
+	if cs.Out == "traces" {
+		var want []string
+		for _, sm := range q.Sample {
+			if len(sm.Location) == 0 {
+				continue
+			}
+			n := 0
+			for _, l := range sm.Location {
+				if noinl || len(l.Line) == 0 {
+					n++
+				} else {
+					n += len(l.Line)
+				}
+			}
+			want = append(want, fmt.Sprintf("%d/%d", sm.Value[col], n))
+		}
+		got := parseTraces(res.text)
+		if strings.Join(got, " ") != strings.Join(want, " ") {
+			c.Violation("C11/agg/traces/stacks", fmt.Sprintf("pprof -traces (%s) prints samples (value/frames) %v; frame dropping on the original names followed by aggregation gives %v", desc, got, want), cs)
+		}
+		return
+	}
+	// -proto: granularity is forced to addresses; -noinlines keeps the outermost line of a location
+	if noinl {
+		for _, l := range q.Location {
+			if len(l.Line) > 1 {
+				l.Line = l.Line[len(l.Line)-1:]
+			}
+		}
+	}
+	erase := func(vs []string) []string { // line/column are erased or kept depending on flags: compare names only
+		return vs
+	}
+	want, got := c11Stacks(q), c11Stacks(res.prof.prof)
+	_ = erase
+	if strings.Join(got, "\n") != strings.Join(want, "\n") {
+		i := 0
+		for i < len(got) && i < len(want) && got[i] == want[i] {
+			i++
+		}
+		g, w := "", ""
+		if i < len(got) {
+			g = got[i]
+		}
+		if i < len(want) {
+			w = want[i]
+		}
+		c.Violation("C11/agg/proto/stacks", fmt.Sprintf("pprof -proto (%s): sample %d has stack %q; frame dropping on the original names followed by aggregation gives %q", desc, i, c06trunc(g), c06trunc(w)), cs)
+	}
+}
+
+// c11Stacks: per sample its values and the function names of its frames (leaf first).
+func c11Stacks(p *profile.Profile) []string {
+	out := make([]string, len(p.Sample))
+	for i, s := range p.Sample {
+		var fr []string
+		for _, l := range s.Location {
+			if len(l.Line) == 0 {
+				fr = append(fr, "<unsymbolized>")
+			}
+			for _, ln := range l.Line {
+				fr = append(fr, fmt.Sprintf("%q", ln.Function.Name))
+			}
+		}
+		out[i] = fmt.Sprint(s.Value) + " " + strings.Join(fr, " ")
+	}
+	return out
+}
+
 // ---------- generators ----------
 
 var c11Names = []string{"d1", "d2", "d3", "k1", "kd", "u1", "u2", "main", ".d1", "d2(int)", "ns::(anonymous namespace)::d1(int)",
@@ -685,6 +859,19 @@ func runC11Case(c *Ctx, e *c11Env, cs c11Case) {
 		c11Simplify(c, e, cs)
 	case "noexpr":
 		c11NoExpr(c, cs)
+	case "agg":
+		p, err := ParseCanon(cs.Profile)
+		if err != nil {
+			c.Res.HarnessError = err.Error()
+			return
+		}
+		dir, err := os.MkdirTemp("", "pv-c11-")
+		if err != nil {
+			c.Res.HarnessError = err.Error()
+			return
+		}
+		defer os.RemoveAll(dir)
+		c11AggEval(c, e, cs, c11RunAgg(c.Pprof, dir, 0, p, cs))
 	case "cli":
 		p, err := ParseCanon(cs.Profile)
 		if err != nil {
@@ -736,7 +923,7 @@ func c11NoExpr(c *Ctx, cs c11Case) {
 }
 
 func runC11(c *Ctx) {
-	c.Res.Rule = "profiles with inlined multi-line locations (match at the root-most line, in the middle, at the leaf-most line), locations shared by several samples, unsymbolized locations, empty stacks, functions with empty names and names that simplifyFunc rewrites (leading '.', argument lists, reserved '(anonymous namespace)' / 'operator()'); drop/keep expressions from a list of alternations/classes/wildcards, anchored as RemoveUninteresting does and unanchored for Prune; streams: Prune, RemoveUninteresting, PruneFrom (inputs violating the hypothesis of the _partial theorems on known-finding streams), simplifyFunc through anchored quoted names, no-expression identity, `pprof -proto` on profiles carrying drop_frames/keep_frames and with -prune_from, also combined with focus/ignore/hide/show/tagfocus expressions that match on the leaf side of the prune point (the filters must decide on the unpruned stacks). non-trivial = the expressions match at least one but not all locations in use; distinct by expressions + canonical profile"
+	c.Res.Rule = "profiles with inlined multi-line locations (match at the root-most line, in the middle, at the leaf-most line), locations shared by several samples, unsymbolized locations, empty stacks, functions with empty names and names that simplifyFunc rewrites (leading '.', argument lists, reserved '(anonymous namespace)' / 'operator()'); drop/keep expressions from a list of alternations/classes/wildcards, anchored as RemoveUninteresting does and unanchored for Prune; streams: Prune, RemoveUninteresting, PruneFrom (inputs violating the hypothesis of the _partial theorems on known-finding streams), simplifyFunc through anchored quoted names, no-expression identity, `pprof -proto` on profiles carrying drop_frames/keep_frames and with -prune_from, also combined with focus/ignore/hide/show/tagfocus expressions that match on the leaf side of the prune point (the filters must decide on the unpruned stacks), and `pprof -traces` / `-proto -noinlines` with every granularity (default, functions, files, lines, addresses, filefunctions), -noinlines, -relative_percentages on/off and -tagroot/-tagleaf (expected stacks = aggregation applied AFTER drop/keep frames, label frames and prune_from on the original names). non-trivial = the expressions match at least one but not all locations in use; distinct by expressions + canonical profile"
 	e := &c11Env{c: c, simp: map[string]string{}}
 	if c.Replay != "" {
 		var cs c11Case
@@ -938,5 +1125,91 @@ func runC11(c *Ctx) {
 		}
 		c.Res.Count(c11Key(cs), nt)
 		c11CliEval(c, e, cs, outs[i])
+	}
+	// ---- frame dropping through aggregating outputs: every granularity, -noinlines, both percentage
+	// modes, -tagroot/-tagleaf
+	nAgg := 260 * c.Scale
+	acs := make([]c11Case, nAgg)
+	aps := make([]*profile.Profile, nAgg)
+	grans := [][]string{nil, {"-functions"}, {"-files"}, {"-lines"}, {"-addresses"}, {"-filefunctions"}, {"-files"}}
+	for i := range acs {
+		p := genC11Profile(r, true)
+		cs := c11Case{Kind: "agg", Stream: "main", Out: "traces", Rel: i%4 >= 2}
+		cs.Flags = append([]string(nil), grans[r.Intn(len(grans))]...)
+		if r.Chance(45) {
+			cs.Flags = append(cs.Flags, "-noinlines")
+		}
+		if i%5 == 4 { // -proto forces address granularity; only -noinlines aggregates
+			cs.Out, cs.Flags = "proto", []string{"-noinlines"}
+		}
+		// prune_from anchored on a function of the profile, preferably one that occurs as an inlined
+		// (non-outermost) line
+		var inl, all []string
+		for _, l := range p.Location {
+			for j, ln := range l.Line {
+				if plain[ln.Function.Name] {
+					all = append(all, ln.Function.Name)
+					if j+1 < len(l.Line) {
+						inl = append(inl, ln.Function.Name)
+					}
+				}
+			}
+		}
+		switch {
+		case i%3 != 2 && len(inl) > 0 && r.Chance(70):
+			cs.PruneFrom = "^" + inl[r.Intn(len(inl))] + "$"
+			c.Res.Hit("agg:prune_from-anchor-occurs-inlined")
+		case i%3 != 2 && len(all) > 0:
+			cs.PruneFrom = "^" + all[r.Intn(len(all))] + "$"
+		case i%3 != 2:
+			cs.PruneFrom = pick([]string{"d1", "^d", "u", "main"})
+		}
+		if i%3 != 0 {
+			p.DropFrames, p.KeepFrames = pick(c11Drops), pick(c11Keeps)
+		}
+		if i%4 == 1 {
+			if r.Bool() {
+				cs.TagRoot = pick([]string{"k", "bytes", "k,bytes", "nokey"})
+			} else {
+				cs.TagLeaf = pick([]string{"k", "bytes", "bytes,k"})
+			}
+			c.Res.Hit("agg:tagroot-or-tagleaf")
+		}
+		var buf bytes.Buffer
+		p.Write(&buf)
+		p, err = profile.ParseData(buf.Bytes())
+		if err != nil {
+			c.Res.HarnessError = "generated profile does not round-trip: " + err.Error()
+			return
+		}
+		cs.Profile = Canon(p)
+		acs[i], aps[i] = cs, p
+		c.Res.Hit("agg:" + cs.Out + ":" + strings.Join(cs.Flags, "") + fmt.Sprintf(":rel=%v", cs.Rel))
+	}
+	aouts := make([]c11AggOut, nAgg)
+	for i := range acs {
+		wg.Add(1)
+		sem <- struct{}{}
+		go func(i int) {
+			defer wg.Done()
+			defer func() { <-sem }()
+			aouts[i] = c11RunAgg(c.Pprof, dir, i, aps[i], acs[i])
+		}(i)
+	}
+	wg.Wait()
+	for i, cs := range acs {
+		nt := false
+		if cs.PruneFrom != "" {
+			if re, err := regexp.Compile(cs.PruneFrom); err == nil {
+				nt = c11Stats(c, e, aps[i], e.lineMatcher(re, nil), "agg-prunefrom")
+			}
+		}
+		if aps[i].DropFrames != "" {
+			if drop, keep, ok := c11Compile(c11Case{Drop: aps[i].DropFrames, Keep: aps[i].KeepFrames}, true); ok {
+				nt = c11Stats(c, e, aps[i], e.lineMatcher(drop, keep), "agg-prune") || nt
+			}
+		}
+		c.Res.Count(c11Key(cs)+fmt.Sprint(cs.Out, cs.Flags, cs.Rel, cs.TagRoot, cs.TagLeaf), nt)
+		c11AggEval(c, e, cs, aouts[i])
 	}
 }
